@@ -321,8 +321,8 @@ func TestC19Serve(t *testing.T) {
 		port := f.Port
 		hc := &http.Client{Transport: &http.Transport{DialContext: func(ctx context.Context, network, addr string) (net.Conn, error) {
 			return (&net.Dialer{}).DialContext(ctx, network, fmt.Sprintf("127.0.0.1:%d", port))
-		}}, Timeout: 10 * time.Second}
-		cl, err := sunlight.NewClient(&sunlight.ClientConfig{MonitoringPrefix: "http://" + l.Host + l.Path, PublicKey: l.D.Key.Public(), UserAgent: ua, HTTPClient: hc, Timeout: 5 * time.Second})
+		}}, Timeout: 120 * time.Second}
+		cl, err := sunlight.NewClient(&sunlight.ClientConfig{MonitoringPrefix: "http://" + l.Host + l.Path, PublicKey: l.D.Key.Public(), UserAgent: ua, HTTPClient: hc, Timeout: 60 * time.Second})
 		if err != nil {
 			r.Inconcl("client: %v", err)
 			continue
